@@ -232,3 +232,5 @@ func vParseOFF(path string) (*vOFFFile, error) {
 	}
 	return f, nil
 }
+
+func mathFloat32bits(f float32) uint32 { return math.Float32bits(f) }
